@@ -36,6 +36,7 @@ type IGSpec struct {
 	ToFlt   []byte   // tx shape: keep transactions whose tx_to contains this address
 	Ref     string   // dep shapes: referenced integration
 	Ref2    string   // dep shape: second referenced integration (on input "to")
+	RefBD   string   // dep shape: further referenced integration, on block field log_addr
 	RefLo   uint64   // dep shapes: first block the referenced integration(s) index (their start)
 	Sources []SrcRef // which sources, with start/stop
 	Disable bool
@@ -120,6 +121,9 @@ func (ig *IGSpec) jsonConfig() map[string]any {
 		if ig.Shape == "depbd" {
 			addBD("log_addr", "bytea", ref(ig.Ref))
 		}
+		if ig.Shape == "dep" && ig.RefBD != "" {
+			addBD("log_addr", "bytea", ref(ig.RefBD))
+		}
 	case "created":
 		cols = append(cols, jcol{"addr", "bytea"})
 		event = map[string]any{"name": "Created", "type": "event", "anonymous": false, "inputs": []any{
@@ -159,6 +163,31 @@ func (ig *IGSpec) jsonConfig() map[string]any {
 		m["event"] = event
 	}
 	return m
+}
+
+// DeclaredRefs lists the integrations the declaration references through
+// filter_ref (on inputs and block fields), without duplicates, in order.
+func (ig *IGSpec) DeclaredRefs() []string {
+	var out []string
+	add := func(n string) {
+		for _, o := range out {
+			if o == n {
+				return
+			}
+		}
+		if n != "" {
+			out = append(out, n)
+		}
+	}
+	switch ig.Shape {
+	case "dep":
+		add(ig.Ref)
+		add(ig.Ref2)
+		add(ig.RefBD)
+	case "depbd":
+		add(ig.Ref)
+	}
+	return out
 }
 
 // BuildConfig renders sources + integrations to JSON, decodes it the way
@@ -256,6 +285,9 @@ func (ig *IGSpec) Project(c *Chain, b *Block, src string) []RowVals {
 					if ig.Ref2 != "" { // default aggregation of filters is "or"
 						ok = ok || created[string(l.To)]
 					}
+					if ig.RefBD != "" {
+						ok = ok || created[string(l.Addr)]
+					}
 					if !ok {
 						continue
 					}
@@ -268,7 +300,7 @@ func (ig *IGSpec) Project(c *Chain, b *Block, src string) []RowVals {
 				if ig.Shape == "log" || ig.Hdr {
 					r["block_time"] = u64(b.Time)
 				}
-				if ig.AddrFlt || ig.Shape == "depbd" {
+				if ig.AddrFlt || ig.Shape == "depbd" || (ig.Shape == "dep" && ig.RefBD != "") {
 					r["log_addr"] = l.Addr
 				}
 				out = append(out, r)
